@@ -22,7 +22,7 @@ fn default_opt() -> Opt {
     Opt { opaque: true, wildcard: false, from_impls: false, no_std: false, custom: vec![], annotations: vec![DEFAULT_ANN.into()] }
 }
 
-const FIXED: [(&str, &str); 27] = [
+const FIXED: [(&str, &str); 28] = [
     ("recursion-direct", "Rec ::= SEQUENCE { next Rec OPTIONAL, v INTEGER }"),
     ("recursion-choice", "Tree ::= CHOICE { leaf INTEGER, node SEQUENCE { l Tree, r Tree } }"),
     ("recursion-mutual", "Ra ::= SEQUENCE { b Rb OPTIONAL }\nRb ::= SEQUENCE { a Ra, n NULL }"),
@@ -45,6 +45,8 @@ const FIXED: [(&str, &str); 27] = [
     ("alias-number-default", "Nn ::= INTEGER { one(1), nine(9) }\nNa ::= Nn\nSs ::= INTEGER (0..255)\nSa ::= Ss\nSb ::= Sa\nDb ::= SEQUENCE { a [0] Na DEFAULT 3, b [1] Sa DEFAULT 7, c [2] Sb DEFAULT 8 }"),
     ("alias-enumerated-default", "Ee ::= ENUMERATED { p, q }\nEa ::= Ee\nEb ::= Ea\nDc ::= SEQUENCE { a [0] Ea DEFAULT q, b [1] Eb DEFAULT p }"),
     ("alias-values", "Nn ::= INTEGER { one(1), nine(9) }\nNa ::= Nn\nNb ::= Na\nEe ::= ENUMERATED { p, q }\nEa ::= Ee\nva Na ::= nine\nvb Nb ::= 4\nvc Ea ::= p\nvd Nb ::= one"),
+    // the member's type comes from the PER-visible fold, the default function's from the plain ranges: they must agree
+    ("defaults-set-operators", "Du ::= SEQUENCE { e [0] INTEGER (0..10 | 20..300) DEFAULT 5, f [1] INTEGER (0..10)(0..5, ...) DEFAULT 3, g [2] INTEGER (0..300 ^ 5..10) DEFAULT 7, h [3] INTEGER ((0..10), ...) DEFAULT 2, i [4] INTEGER (-5..5 | 100) DEFAULT -2 }"),
     ("alias-boolean-string-default", "Bo ::= BOOLEAN\nBa ::= Bo\nSt ::= UTF8String\nSa ::= St\nDd ::= SEQUENCE { a [0] Ba DEFAULT TRUE, b [1] Sa DEFAULT \"x\" }"),
     ("nested-depth-4", "Dp ::= SEQUENCE { l1 SEQUENCE { l2 CHOICE { l3 SEQUENCE OF SEQUENCE { l4 ENUMERATED { a, b }, k SET { m INTEGER } } } } }"),
     ("set-and-set-of", "St ::= SET { a [0] INTEGER, b [1] BOOLEAN OPTIONAL, ... , c [2] NULL }\nSo ::= SET (SIZE (1..4)) OF St"),
